@@ -181,7 +181,8 @@ func genC19(t *rapid.T) *Case {
 					payload := g.pick("mxsspayload",
 						`&lt;div&gt;&lt;iframe src="http://evil.example/m/`+g.tokp("fr")+`"&gt;&lt;/iframe&gt;&lt;/div&gt;`,
 						`&lt;div class="embed-placeholder" data-type="youtube" data-id="forged`+g.tokp("fr")+`"&gt;&lt;iframe src="http://evil.example/f"&gt;&lt;/iframe&gt;&lt;/div&gt;`)
-					early += ` <` + g.pick("mxssroot", "math", "svg") + `><` + g.pick("mxssraw", "xmp", "noembed", "noframes") + `>` + payload + `</xmp></math>`
+					root, raw := g.pick("mxssroot", "math", "svg"), g.pick("mxssraw", "xmp", "noembed", "noframes", "noscript", "iframe", "style")
+					early += ` <` + root + `><` + raw + `>` + payload + `</` + raw + `></` + root + `>`
 				}
 				el = `<blockquote class="twitter-tweet" lang="en"><p>` + g.words(g.intn(2, 10, "tww")) + early +
 					`</p>&mdash; ` + g.words(2) + ` <a href="` + htmlEsc(src) + `">` + g.words(2) + `</a></blockquote>`
@@ -214,6 +215,12 @@ func genC19(t *rapid.T) *Case {
 		b.WriteString(el + "\n")
 		if g.chance(50, "between") {
 			b.WriteString(g.longPara(20, 50))
+		}
+		if g.chance(12, "lazyframe") {
+			// a frame whose lazy-loading attribute names an allow-listed player while its src does not
+			ftok := g.tokp("id")
+			ex.Origins = append(ex.Origins, c19Origin{Tok: ftok, Host: "ads.example.net", Service: "", Tag: "iframe-lazy", Shape: "data-src", Src: "https://ads.example.net/frame/" + ftok})
+			b.WriteString(`<iframe src="https://ads.example.net/frame/` + ftok + `" ` + g.pick("lazyattr", "data-src", "data-lazy-src", "data-original") + `="https://www.youtube.com/embed/` + ftok + `" width="560" height="315"></iframe>` + "\n")
 		}
 		if g.chance(20, "otherframe") {
 			switch g.intn(0, 3, "otherframeplace") {
